@@ -3,5 +3,8 @@ EXTENDS NixVersionCmp
 LibV == <<1, 2, 0>>
 Cube == {<<x, y, z>> : x \in (LibV[1]-2)..(LibV[1]+2), y \in (LibV[2]-2)..(LibV[2]+2), z \in (LibV[3]-2)..(LibV[3]+2)}
 Ext  == {<<x, y, z>> : x \in {0, 1, 2147483647}, y \in {0, 2, 2147483647}, z \in {0, 1, 2147483647}}
-AllVersions == Cube \cup Ext
+\* triples that collide with (or sit next to) the library version when three components are packed into one number with base B
+Mid  == UNION {{<<LibV[1], LibV[2] - 1, B>>, <<LibV[1], LibV[2] - 2, 2 * B>>, <<LibV[1] - 1, B + LibV[2], 0>>,
+                <<LibV[1], LibV[2] - 1, B + 1>>, <<LibV[1], LibV[2] - 1, B - 1>>} : B \in {10, 100, 256, 1000, 1024, 65536}}
+AllVersions == Cube \cup Ext \cup Mid
 =============================================================================
